@@ -183,10 +183,10 @@ func c15r5(p *model.Prog, r *report.Result) {
 	r.Rule("C15.R5", "in Group.disposeInactiveSessions, for every IsAlive() call on an output session (the loops over the subscriber sets and push proxies): every path from the call to the end of that iteration tests the write-alive result, and the not-write-alive edge leads to Dispose() on every path: no other condition (read activity such as RTCP from the peer) keeps a subscriber that accepts no data connected")
 	fn := p.Method("pkg/logic", "Group", "disposeInactiveSessions")
 	n := 0
-	for _, ci := range model.AllCalls(fn) {
+	isAliveCall := func(ci ssa.CallInstruction) (*ssa.Call, bool) {
 		c, ok := ci.(*ssa.Call)
 		if !ok {
-			continue
+			return nil, false
 		}
 		name := ""
 		if c.Call.IsInvoke() {
@@ -194,14 +194,10 @@ func c15r5(p *model.Prog, r *report.Result) {
 		} else if o := model.CalleeObj(&c.Call); o != nil {
 			name = o.Name()
 		}
-		if name != "IsAlive" {
-			continue
-		}
-		hdr := loopHeaderOf(fn, c.Block())
-		if hdr == nil {
-			continue // the publisher checks are not inside a loop; they use read liveness
-		}
-		n++
+		return c, name == "IsAlive"
+	}
+	// site: one IsAlive() call c in g; the iteration ends at g's return or at the loop header hdr
+	site := func(g *ssa.Function, c *ssa.Call, hdr *ssa.BasicBlock) {
 		var wa ssa.Value
 		for _, ref := range *c.Referrers() {
 			if ex, isE := ref.(*ssa.Extract); isE && ex.Index == 1 {
@@ -227,12 +223,12 @@ func c15r5(p *model.Prog, r *report.Result) {
 			if _, isR := in.(*ssa.Return); isR {
 				return true
 			}
-			return in == hdr.Instrs[0]
+			return hdr != nil && in == hdr.Instrs[0]
 		}
-		unconsulted := model.PathQuery{From: c, StopEdge: func(b *ssa.BasicBlock, k int) bool { _, is := isWaIf(b); return is }, Target: endOfIter}.Find(fn)
+		unconsulted := model.PathQuery{From: c, StopEdge: func(b *ssa.BasicBlock, k int) bool { _, is := isWaIf(b); return is }, Target: endOfIter}.Find(g)
 		// from the not-alive edge every path reaches Dispose
 		skipped := false
-		for _, b := range fn.Blocks {
+		for _, b := range g.Blocks {
 			if k, is := isWaIf(b); is {
 				miss := model.PathQuery{FromBlock: b.Succs[k], Stop: func(in ssa.Instruction) bool {
 					cc, isC := in.(ssa.CallInstruction)
@@ -244,13 +240,44 @@ func c15r5(p *model.Prog, r *report.Result) {
 					}
 					o := model.CalleeObj(cc.Common())
 					return o != nil && o.Name() == "Dispose"
-				}, Target: endOfIter}.Find(fn)
+				}, Target: endOfIter}.Find(g)
 				if miss != nil {
 					skipped = true
 				}
 			}
 		}
-		r.Check(unconsulted == nil && !skipped && wa != nil, "C15.R5", fkey(fn, "sweep", "write-alive-decides"), p.InstrPos(c), "not write-alive => disposed", "the sweep can leave a subscriber connected although it is not write-alive (another condition, e.g. read activity, is required as well or instead): a player that stopped reading but keeps sending RTCP is never disconnected, its queue stays pinned")
+		r.Check(unconsulted == nil && !skipped && wa != nil, "C15.R5", fkey(g, "sweep", "write-alive-decides"), p.InstrPos(c), "not write-alive => disposed", "the sweep can leave a subscriber connected although it is not write-alive (another condition, e.g. read activity, is required as well or instead): a player that stopped reading but keeps sending RTCP is never disconnected, its queue stays pinned")
+	}
+	helpersDone := map[*ssa.Function]bool{}
+	for _, ci := range model.AllCalls(fn) {
+		if c, is := isAliveCall(ci); is {
+			hdr := loopHeaderOf(fn, c.Block())
+			if hdr == nil {
+				continue // the publisher checks are not inside a loop; they use read liveness
+			}
+			n++
+			site(fn, c, hdr)
+			continue
+		}
+		// a same-package helper called inside a subscriber loop that asks IsAlive() of its parameter
+		ce := ci.Common().StaticCallee()
+		if ce == nil || ce.Blocks == nil || ce.Pkg != fn.Pkg || loopHeaderOf(fn, ci.Block()) == nil {
+			continue
+		}
+		for _, hc := range model.AllCalls(ce) {
+			c, is := isAliveCall(hc)
+			if !is {
+				continue
+			}
+			if _, onParam := receiver(c.Common()).(*ssa.Parameter); !onParam {
+				continue
+			}
+			n++
+			if !helpersDone[ce] {
+				site(ce, c, nil)
+			}
+		}
+		helpersDone[ce] = true
 	}
 	if n < 4 {
 		r.Bad("C15.R5", fkey(fn, "sweep", "floor"), p.Pos(fn.Pos()), fmt.Sprintf("only %d IsAlive() calls inside the subscriber loops found", n))
